@@ -533,3 +533,21 @@ const _: () = {
         }
     }
 };
+
+#[cfg(feature="ohkami_verif")]
+#[cfg(feature="__rt_native__")]
+#[doc(hidden)]
+impl Request {
+    pub fn __verif_init() -> Self {
+        Self::init(crate::util::IP_0000)
+    }
+    pub fn __verif_clear(&mut self) {
+        self.clear()
+    }
+    pub async fn __verif_read(
+        self: Pin<&mut Self>,
+        stream: &mut (impl AsyncRead + Unpin),
+    ) -> Result<Option<()>, crate::Response> {
+        self.read(stream).await
+    }
+}
